@@ -76,7 +76,7 @@ class Ctx:
 
     # ---------------------------------------------------------------- TLC
     def _tlc(self, args, env=None, timeout=3000, heap='8g', tag='tlc'):
-        meta = os.path.join(self.dir, 'meta-%s-%d' % (tag, int(time.time() * 1000) % 100000000))
+        meta = os.path.join(self.dir, 'meta-%s-%s' % (tag, __import__('uuid').uuid4().hex[:12]))
         cmd = JAVA[:1] + ['-Xmx' + heap] + JAVA[1:] + ['tlc2.TLC', '-metadir', meta] + args
         e = dict(os.environ)
         if env:
